@@ -7,8 +7,7 @@
 //! PROCESS (fresh hash seeds, fresh allocator state) from the instruction texts. Output: the
 //! reference listing and text, whether each other build's text is byte-identical, the child's
 //! verdict, and the listing of the concatenation route.
-use qvh::progs::parse_one;
-use qvh::progwire::{pool_or_exit, Pool, Proj};
+use qvh::progwire::{parse_one, pool_or_exit, Pool, Proj};
 use qvh::*;
 use quil_rs::instruction::Instruction;
 use quil_rs::quil::Quil;
@@ -83,7 +82,14 @@ fn observe(is: &[Instruction], cuts: &[usize], pr: &mut Proj, iso: Option<&mut I
         Program::from_str(&joined).expect("joined text parses"),
         Program::from(is.to_vec()),
     ];
-    let same: Vec<Sexp> = others.iter().map(|p| boolean(p.to_quil().expect("printable") == text)).collect();
+    // sibling printers: the lenient printer and the instruction-by-instruction rendering give the same text
+    let by_lines: String =
+        reference.to_instructions().iter().map(|i| i.to_quil().expect("printable") + "\n").collect();
+    let others_ok = reference.to_quil_or_debug() == text && by_lines == text && reference.clone().to_quil().ok() == Some(text.clone());
+    let mut same: Vec<Sexp> = others.iter().map(|p| boolean(p.to_quil().expect("printable") == text)).collect();
+    if !others_ok {
+        same[0] = boolean(false);
+    }
     let payload = list(texts_of(is).into_iter().map(st).collect());
     let child_same = match iso.map(|iso| iso.call(&payload)) {
         None => atom("skipped"),
@@ -146,6 +152,13 @@ fn run(ctx: &mut Ctx) {
     ];
     let corpus: Vec<Vec<&str>> = vec![
         vec![],
+        // "empty" in one flavour
+        vec!["DEFCAL MEASURE 2 addr:\n\tX 11"],
+        vec!["DEFCAL MEASURE 2 addr:\n\tX 11", "DEFCAL MEASURE 0:\n\tX 43", "DEFCAL MEASURE 2 addr:\n\tX 2"],
+        vec!["DEFCAL X 5:\n\tNOP", "DEFCAL X 0:\n\tY 7"],
+        vec!["DEFCAL X 5:\n\tNOP", "DEFCAL MEASURE 2 addr:\n\tX 11"],
+        vec!["PRAGMA EXTERN foo \"INTEGER (x : INTEGER)\"", "PRAGMA EXTERN"],
+        vec!["X 0", "H 1"],
         frames4.to_vec(),
         frames4.iter().rev().cloned().collect(),
         vec![frames4[0], frames4[1], "X 0", frames4[2], "DEFFRAME 0 \"rf\":\n\tINITIAL-FREQUENCY: 2000000000\n\tDIRECTION: \"tx\"", frames4[3], "DEFFRAME 5 \"rf\":\n\tDIRECTION: \"tx\""],
@@ -181,6 +194,7 @@ fn run(ctx: &mut Ctx) {
         "DEFGATE FOO:\n\t0, 1\n\t1, 0",
         "DEFCAL X 0:\n\tY 7",
         "DEFCAL DAGGER X 0:\n\tY 14",
+        "DEFCAL MEASURE 2 addr:\n\tX 11",
     ]
     .iter()
     .map(|t| one(t))
@@ -192,10 +206,10 @@ fn run(ctx: &mut Ctx) {
         'outer: loop {
             let is: Vec<Instruction> = idx.iter().map(|&k| alphabet[k].clone()).collect();
             let cut = idx.iter().sum::<usize>() % (len + 1);
-            // the fresh-process build is done for one sequence in eight of this stream (every case of
+            // the fresh-process build is done for one sequence in sixteen of this stream (every case of
             // the other streams): a round trip to the child costs more than the nine in-process builds
             exh += 1;
-            emit(ctx, if exh % 8 == 0 { Some(&mut iso) } else { None }, is, vec![cut]);
+            emit(ctx, if exh % 16 == 0 { Some(&mut iso) } else { None }, is, vec![cut]);
             let mut k = len;
             loop {
                 if k == 0 {
@@ -231,7 +245,7 @@ fn run(ctx: &mut Ctx) {
             let is: Vec<Instruction> = idx.iter().map(|&k| alphabet2[k].clone()).collect();
             let cut = idx.iter().sum::<usize>() % (len + 1);
             exh += 1;
-            emit(ctx, if exh % 8 == 0 { Some(&mut iso) } else { None }, is, vec![cut]);
+            emit(ctx, if exh % 16 == 0 { Some(&mut iso) } else { None }, is, vec![cut]);
             let mut k = len;
             loop {
                 if k == 0 {
@@ -251,9 +265,18 @@ fn run(ctx: &mut Ctx) {
     // interleaved with 0-6 body instructions, cut at 1-3 random places
     let mut rng = ctx.rng(8);
     let n = if ctx.quick() { 2_500 } else { 60_000 };
+    let mut rnd = 0u64;
     for _ in 0..n {
         let mut is: Vec<Instruction> = Vec::new();
+        // one history in fifty: 64-300 instructions over few keys (many redefinitions per key)
+        let long = rng.chance(1, 50);
+        if long {
+            is = pool.long_history(&mut rng).into_iter().filter(text_stable).collect();
+        }
         for defs in &by_kind {
+            if long {
+                break;
+            }
             if defs.is_empty() || rng.chance(1, 8) {
                 continue;
             }
@@ -275,7 +298,10 @@ fn run(ctx: &mut Ctx) {
         let ncuts = 1 + rng.below(3);
         let mut cuts: Vec<usize> = (0..ncuts).map(|_| rng.below(is.len() as u64 + 1) as usize).collect();
         cuts.sort();
-        emit(ctx, Some(&mut iso), is, cuts);
+        // quick: the fresh-process build for every second random history (thorough: every one)
+        rnd += 1;
+        let use_child = !ctx.quick() || rnd % 2 == 0;
+        emit(ctx, if use_child { Some(&mut iso) } else { None }, is, cuts);
     }
 }
 
